@@ -302,6 +302,9 @@ def dry_runs():
     yield 'I3_logging', dict(uni=False, lr=True, ls=True, lf=True, o1=b'o', k1=b'k')
 
 
+PROBES = ['transports']      # representation probes (harness/probes.py) this harness depends on
+
+
 MANIFEST_ENTRY = {
     'level_text': 'Bounded symbolic verification of the real interact()/__interact_copy/__interact_writen over scripted '
                   'select/os/tty: symbolic keystrokes and child output (all byte values, <=3 bytes x 2 reads each way), '
